@@ -75,7 +75,8 @@ TolR == 200          \* 2e-4 on the NTU round trip (the cross-flow inversions ar
 Reach(s, i) == s.arr # "CrFMM" \/ \A j \in 1..(i - 1) : s.effM[j + 1] >= s.effM[j]
 
 (* the NTU -> eff -> NTU direction is ill-conditioned AT the maximum itself: require the curve to be still rising *)
-ReachStrict(s, i) == s.arr # "CrFMM" \/ (i < Len(s.n4) /\ s.effM[i + 1] > s.effM[i])
+ReachStrict(s, i) == s.arr # "CrFMM" \/ (i < Len(s.n4) /\ (s.effM[i + 1] - s.effM[i]) * 1000 >= s.ntuM[i + 1] - s.ntuM[i])
+(* (slope >= 1e-3 per unit NTU: the numerical inversion resolves eff to 1e-5, i.e. NTU to 1e-5/slope) *)
 
 SeriesFails(s) ==
   LET n == Len(s.n4)
@@ -88,16 +89,16 @@ SeriesFails(s) ==
   \cup (IF s.c4 # 0 \/ \A i \in 1..n : AbsI(s.effM[i] - (M - 100 * Ex(4 * s.n4[i]))) <= TolE THEN {} ELSE {"C20.zero_capacity_ratio_limit"})
   \cup (IF \A i \in 1..n : (s.reach[i] /\ Reach(s, i)) =>
               /\ AbsI(s.effBack[i] - s.effM[i]) <= 50                              \* eff(NTU(eff)) = eff  (5e-5)
-              /\ (ReachStrict(s, i) => AbsI(s.backM[i] - 250000 * s.n4[i]) <= TolR + 500 * s.n4[i])   \* NTU(eff(NTU)) = NTU  (2e-4 + 0.2 %)
+              /\ (ReachStrict(s, i) => AbsI(s.backM[i] - s.ntuM[i]) <= TolR + s.ntuM[i] \div 500)   \* NTU(eff(NTU)) = NTU  (2e-4 + 0.2 %)
         THEN {} ELSE {"C20.round_trip"})
-  \cup (IF s.arr = "CF" /\ P = 1 /\ s.c4 < 4
+  \cup (IF s.arr = "CF" /\ P = 1 /\ s.c4 < 4 /\ s.c4 >= 0
         THEN (IF \A i \in 1..n :
                    LET e == Ex(s.n4[i] * (4 - s.c4))                    \* exp(-NTU (1 - c)),  NTU(1-c) = n4 (4 - c4) / 16
                        e4 == s.effM[i] \div 100                          \* effectiveness at the table's 1e-4 scale (32-bit products)
                    IN  AbsI(e4 * (4 * S - s.c4 * e) - S * 4 * (S - e)) <= 4 * 4 * S
               THEN {} ELSE {"C20.counterflow_closed_form"})
         ELSE {})
-  \cup (IF s.arr = "PF" /\ P = 1
+  \cup (IF s.arr = "PF" /\ P = 1 /\ s.c4 >= 0
         THEN (IF \A i \in 1..n :
                    LET e == Ex(s.n4[i] * (4 + s.c4))
                        e4 == s.effM[i] \div 100
@@ -107,11 +108,15 @@ SeriesFails(s) ==
 
 (* LMTD: d1, d2 in units of 0.1 K (integers), L10 = LMTD in 0.01 K, rounded *)
 LmtdFails(r) ==
-  IF r.d1 <= 0 \/ r.d2 <= 0 THEN (IF r.refused THEN {} ELSE {"C20.lmtd_refuses_nonpositive"})
+  IF r.fine THEN     \* micro-kelvin resolution, nearly equal differences: the smaller difference and the mean are a few units apart
+    (IF Min({r.d1, r.d2}) - 1 <= r.L /\ 2 * r.L <= r.d1 + r.d2 + 2 THEN {} ELSE {"C20.lmtd_between_min_and_mean"})
+    \cup (IF r.L = r.Lswap THEN {} ELSE {"C20.lmtd_symmetric"})
+  ELSE IF r.d1 <= 0 \/ r.d2 <= 0 THEN (IF r.refused THEN {} ELSE {"C20.lmtd_refuses_nonpositive"})
   ELSE IF r.refused THEN {"C20.lmtd_defined_for_positive"}
   ELSE
     (IF 10 * Min({r.d1, r.d2}) - 1 <= r.L /\ 2 * r.L <= 10 * (r.d1 + r.d2) + 2 THEN {} ELSE {"C20.lmtd_between_min_and_mean"})
     \cup (IF r.L = r.Lswap THEN {} ELSE {"C20.lmtd_symmetric"})
+    \cup (IF r.L = r.Lts THEN {} ELSE {"C20.lmtd_from_temperatures_consistent"})
     \cup (IF r.d1 # r.d2 \/ r.L = 10 * r.d1 THEN {} ELSE {"C20.lmtd_equal_differences"})
     (* Carlson / Polya bracket without roots:  G^(2/3) A^(1/3) <= L <= (2G + A)/3,  G = sqrt(d1 d2), A = (d1+d2)/2 *)
     \cup (IF 2 * (r.L + 1) * (r.L + 1) * (r.L + 1) >= 1000 * r.d1 * r.d2 * (r.d1 + r.d2) THEN {} ELSE {"C20.lmtd_lower_bracket"})
